@@ -47,6 +47,8 @@ type Case struct {
 	ErrAfter    int    `json:"err_after"`        // >=0: after this many wire bytes the reader fails with a non-EOF error
 	Truncated   bool   `json:"truncated"`        // Wire is a cut gzip stream (Body holds the full plaintext)
 	Net         bool   `json:"net"`              // delivered over a loopback TCP connection, chunked transfer encoding
+	Lim         limits `json:"limits"`           // pipeline size settings of the plugin instance that serves the case
+	LimClass    string `json:"-"`                // "" (no limit), "small", "big": which instance of the shard
 }
 
 // Clean: a well-formed, completely delivered body.
@@ -71,6 +73,7 @@ func (c *Case) witness() map[string]any {
 	w := map[string]any{
 		"kind": c.Kind, "enc": c.enc(), "eof_with_last_read": c.EOFWithLast,
 		"body_len": len(c.Body), "wire_len": len(c.Wire), "err_after": c.ErrAfter, "truncated_gzip": c.Truncated,
+		"max_event_size": c.Lim.MaxEventSize, "cut_off_event_by_limit": c.Lim.CutOff,
 	}
 	if len(c.Body) <= 256 {
 		w["body"] = strconv.Quote(string(c.Body))
